@@ -128,8 +128,8 @@ impl Prop for Sbo {
     }
     fn cases(tier: Tier) -> u32 {
         match tier {
-            Tier::Quick => 30_000,
-            Tier::Thorough => 3_000_000,
+            Tier::Quick => 200_000,
+            Tier::Thorough => 8_000_000,
         }
     }
     fn floors() -> Vec<(&'static str, u32)> {
